@@ -2,6 +2,7 @@
 from core import strip, is_field, key_str
 from facts import AnalysisBroken
 from rules import nodeset, callpred, field_of, arg_key, ev, Unevaluable, truth_table
+from props import c01
 
 EXPLANATION = (
     "Decides the structural fairness certificate only (DESIGN.md §5 C10): with a LIFO pop_bottom, the deque that "
@@ -125,6 +126,9 @@ def check_fifo(ctx, P, sched, nxt, tag):
 
 def run(ctx):
     P = ctx.prog()
+    c01.core_dependency(ctx, P, "core.dep", (),
+                        'the yield path (successor re-queues the yielding fiber)',
+                        'a fiber re-queued by somebody else than its successor re-enters the batch it is part of')
     sched = P.fn("fiber_scheduler_schedule")
     nxt = P.fn("fiber_scheduler_next")
     check_wsd(ctx, P, sched, nxt)
